@@ -90,7 +90,20 @@ func genCase(t *rapid.T) litterCase {
 		case 4:
 			c.Stmts = append(c.Stmts, fmt.Sprintf("DELETE FROM %s WHERE id = %d", tn(), fw.Range(t, "did", 1, 4)))
 		case 5:
-			if ncreated < 2 {
+			if fw.Pct(t, "caseCollision", 30) {
+				// a name that differs only in letter case from an existing table: a distinct file on this file
+				// system, but the same key in csvq's handler container - refused with "already opened" when the
+				// transaction holds the other one, created otherwise; either way nothing may be left unowned
+				name := strings.ToUpper(fw.PickU(t, "collideWith", names[:min(len(names), 3)]))
+				has := false
+				for _, n := range c.Creates {
+					has = has || n == name
+				}
+				if !has {
+					c.Creates = append(c.Creates, name)
+				}
+				c.Stmts = append(c.Stmts, fmt.Sprintf("CREATE TABLE `%s` (a, b)", name))
+			} else if ncreated < 2 {
 				ncreated++
 				name := fmt.Sprintf("new%d.csv", ncreated)
 				c.Creates = append(c.Creates, name)
@@ -110,7 +123,20 @@ func genCase(t *rapid.T) litterCase {
 	switch c.Ending {
 	case "error":
 		pos := fw.Range(t, "errpos", 0, len(c.Stmts))
-		bad := fw.PickU(t, "bad", []string{"SELECT 1 / 0", "SELECT * FROM `nosuch.csv`", "SELECT nocolumn FROM `t1.csv`", "TRIGGER ERROR 70 'boom'", "INSERT INTO `t1.csv` VALUES (1)"})
+		bad := fw.PickU(t, "bad", []string{"SELECT 1 / 0", "SELECT * FROM `nosuch.csv`", "SELECT nocolumn FROM `t1.csv`", "TRIGGER ERROR 70 'boom'", "INSERT INTO `t1.csv` VALUES (1)", "CREATE TABLE `T1.CSV` (a, b)"})
+		if strings.HasPrefix(bad, "CREATE") {
+			if c.ReadOnly {
+				bad = "SELECT 1 / 0"
+			} else {
+				has := false
+				for _, n := range c.Creates {
+					has = has || n == "T1.CSV"
+				}
+				if !has {
+					c.Creates = append(c.Creates, "T1.CSV")
+				}
+			}
+		}
 		c.Stmts = append(c.Stmts[:pos], append([]string{bad}, c.Stmts[pos:]...)...)
 	case "exit":
 		pos := fw.Range(t, "exitpos", 0, len(c.Stmts))
